@@ -1,8 +1,11 @@
 SPECIFICATION Spec
 CONSTANTS
+  PayloadIds = 2
+  IndepDepth = 1
   PairMode = "std"
-  Universe <- UniverseIndepThorough
+  Universe <- EmptyUniverse
   FormatsUsed <- AllFormats
   Origin = "indep"
 INVARIANT InvWriterModel
+INVARIANT InvMBTilesPlan
 CHECK_DEADLOCK FALSE
